@@ -2,6 +2,9 @@
 # usage: seedtry.sh <seed dir name> <property>...   applies the seeded patch in a scratch worktree under /var/tmp
 # (never /repo), runs the quick checks against it through VERIF_REPO, removes the worktree.
 cd /verif
+# builds against scratch trees get a build cache of their own, removed afterwards (each tree path would
+# otherwise add about a gigabyte to the shared cache)
+export GOCACHE=/var/tmp/seed-gocache-$$
 s=$1; shift
 wt=/var/tmp/seedtry-$s-$$
 git -C /repo worktree add -q --detach $wt HEAD || exit 3
@@ -12,3 +15,4 @@ for p in "$@"; do
   echo "seed=$s check=$p exit=$rc ${v}"
 done
 git -C /repo worktree remove --force $wt
+rm -rf $GOCACHE
